@@ -195,7 +195,14 @@ impl<'w> DocsRun<'w> {
         let d = op["d"].as_u64().unwrap_or(0) as usize;
         iroh_docs::verif::set_clock(op["now"].as_u64().unwrap_or(1000));
         let ev = match kind {
-            "import" => {
+            "import" | "listimport" => {
+                if kind == "listimport" {
+                    // leave a read snapshot as the store's current transaction right before the import
+                    let _ = self.store.as_mut().unwrap().list_namespaces().map(|it| it.count());
+                    if op["authors"].as_bool().unwrap_or(false) {
+                        let _ = self.store.as_mut().unwrap().list_authors().map(|it| it.count());
+                    }
+                }
                 let cap = match (op["kind"].as_str().unwrap(), self.t.secret(d)) {
                     ("write", Some(s)) => Capability::Write(s.clone()),
                     ("write", None) => return None,
@@ -377,7 +384,8 @@ pub fn gen_history(r: &mut Rng, t: &DocTable, len: usize, file: bool) -> Vec<Val
         let any = 1 + r.below(n);
         let rd = real[r.below(real.len())];
         let op = if x < 12 {
-            json!({"op":"import","d": if r.chance(1,2) {rd} else {any}, "kind": if r.chance(1,2) {"write"} else {"read"}})
+            json!({"op": if r.chance(1,3) {"listimport"} else {"import"}, "authors": r.chance(1,2),
+                   "d": if r.chance(1,2) {rd} else {any}, "kind": if r.chance(1,2) {"write"} else {"read"}})
         } else if x < 24 {
             json!({"op":"open","d": if r.chance(3,4) {rd} else {any}})
         } else if x < 30 {
